@@ -1166,3 +1166,6 @@ MA('C18', 'half-complex inverse forgets the real shape (regression)',
    'odl/trafos/fourier.py', 'DiscreteFourierTransformInverse._call_numpy',
    'return np.fft.irfftn(x, s=s, axes=self.axes)',
    'return np.fft.irfftn(x, axes=self.axes)', '_call_numpy:irfftn')
+MA('C09', 'quadratic perturbation Lipschitz without abs', 'odl/solvers/functional/functional.py',
+   'FunctionalQuadraticPerturb.__init__', 'grad_lipschitz = func.grad_lipschitz + 2 * abs(self.quadratic_coeff)',
+   'grad_lipschitz = func.grad_lipschitz + 2 * self.quadratic_coeff', 'grad_lipschitz')
